@@ -496,6 +496,9 @@ func (c *trCtx) passExtras(tf *trFunc) []string {
 
 // funcValue: the name of a translated pure function used as a value (argument of a pinned helper)
 func (c *trCtx) funcValue(o *types.Func, pos token.Pos) string {
+	if r, ok := c.perfPinnedValue(o, pos); ok {
+		return r // a pinned helper with a prelude meaning used as a value (trans_units_perf.go)
+	}
 	tf := c.t.funcs[o.Origin()]
 	if tf == nil || tf.effect || len(tf.mut) > 0 || tf.norder > 0 {
 		trFail(pos, "the function value %s is not a translated pure function", o.FullName())
@@ -801,6 +804,9 @@ func (c *trCtx) elemExpr(e ast.Expr, elem types.Type) string {
 }
 
 func (c *trCtx) indexExpr(x *ast.IndexExpr) string {
+	if r, ok := c.perfFuncInst(x); ok {
+		return r // F[T] as a value: the type argument is implicit in Lean (trans_units_perf.go)
+	}
 	tx := c.typeOf(x.X)
 	switch u := tx.Underlying().(type) {
 	case *types.Slice:
